@@ -964,7 +964,9 @@ func main() {
 		run(m, 1500000+ti)
 		reverse(m, Comp{On: true, Prob: 0.5, Rng: crng}, "types-name-shaped-rdata")
 	}
-	for _, counts := range [][4]int{{0, 1, 0, 0}, {0, 0, 1, 0}, {0, 0, 0, 1}, {1, 1, 1, 1}, {0, 8, 0, 0}, {1, 6, 6, 6}, {0, 40, 40, 40}, {2, 0, 0, 30}} {
+	for _, counts := range [][4]int{{0, 1, 0, 0}, {0, 0, 1, 0}, {0, 0, 0, 1}, {1, 1, 1, 1}, {0, 8, 0, 0}, {1, 6, 6, 6}, {0, 40, 40, 40}, {2, 0, 0, 30},
+		// counts around the octet and 16-bit boundaries of the four header count words
+		{0, 255, 0, 0}, {0, 0, 256, 0}, {0, 0, 0, 257}, {255, 0, 0, 0}, {256, 1, 0, 0}, {0, 300, 256, 1000}, {1, 0, 0, 256}, {0, 65535, 0, 0}, {0, 0, 0, 65535}, {0, 0, 65534, 0}, {4000, 0, 0, 0}} {
 		m := &RMsg{ID: 0x4d4d, Flags: 0x8000}
 		for i := 0; i < counts[0]; i++ {
 			m.Q = append(m.Q, RQ{Name{}, 1, 1})
